@@ -398,7 +398,12 @@ class Ctx:
                 if budget <= 0:
                     break
                 r = self.replay_request(cand)
-                if r and r[1].startswith("FAIL") and (keyf(cand, r[0], r[1]) == key or keyf(request, "", "") == request):
+                if not (r and r[1].startswith("FAIL")):
+                    continue
+                ck = keyf(cand, r[0], r[1])
+                # same finding key; or, when the key is the request itself (no classification), any failing candidate
+                # that is not one of the listed known findings (a shrink must not drift into a known class)
+                if ck == key or (keyf(request, "", "") == request and ck not in getattr(self, "_known_keys", {})):
                     request = cand
                     improved = True
                     break
@@ -419,6 +424,7 @@ class Ctx:
         keyf = self.spec.get("finding_key", default_key)
         known = [k for k in load_known() if k.get("property") == self.id and k.get("kind") == "known"]
         known_keys = {k["key"]: k for k in known}
+        self._known_keys = known_keys
         unlisted = {}
         for req, obs, orc in self.oracle_failures:
             key = keyf(req, obs, orc)
